@@ -188,4 +188,131 @@ theorem dRand_law (dist : List (ℝ × ℝ)) (r : ℝ) (hr : r ≤ (dist.map (·
     simp only [Nat.sub_zero, List.getElem?_eq_getElem hj, Bool.and_eq_true, ScalarReal.eqb_iff, true_and]
     exact searchLe_inCdfStep r _ j hs
 
+
+/-! ### hidden Markov chain: the subtractive search and its predicate (any scalar type: pure logic) -/
+section
+variable {α : Type} [Scalar α]
+
+theorem subtractSearch_bounds : ∀ (l : List α) (u : α) (i0 i : Nat), subtractSearch u l i0 = some i → i0 ≤ i ∧ i < i0 + l.length
+  | [], _, _, _, h => by cases h
+  | p :: ps, u, i0, i, h => by
+    unfold subtractSearch at h
+    dsimp only at h
+    split at h
+    · simp only [Option.some.injEq] at h; subst h; simp
+    · have := subtractSearch_bounds ps _ (i0 + 1) i h
+      simp only [List.length_cons]; omega
+
+theorem subtractSearch_iff_stepOk : ∀ (p : List α) (prob : α) (i0 i : Nat),
+    subtractSearch prob p i0 = some (i0 + i) ↔ hmmStepOk p prob i = true
+  | [], _, _, _ => by simp [subtractSearch, hmmStepOk, remainders]
+  | q :: qs, prob, i0, i => by
+    unfold subtractSearch
+    dsimp only
+    by_cases hlt : Scalar.ltb (prob - q) (Scalar.ofInt 0) = true
+    · simp only [hlt, if_true, Option.some.injEq]
+      cases i with
+      | zero => simp [hmmStepOk, remainders, hlt]
+      | succ j =>
+        simp only [hmmStepOk, remainders, List.getElem?_cons_succ, List.take_succ_cons, List.all_cons, hlt,
+          Bool.not_true, Bool.false_and, Bool.and_false]
+        constructor
+        · intro h; omega
+        · intro h; split at h <;> simp at h
+    · simp only [hlt, Bool.false_eq_true, if_false]
+      cases i with
+      | zero =>
+        simp only [Nat.add_zero, hmmStepOk, remainders, List.getElem?_cons_zero, hlt, Bool.false_and]
+        constructor
+        · intro h; have := (subtractSearch_bounds qs _ (i0 + 1) i0 h).1; omega
+        · intro h; simp at h
+      | succ j =>
+        have ih := subtractSearch_iff_stepOk qs (prob - q) (i0 + 1) j
+        have e : i0 + (j + 1) = i0 + 1 + j := by omega
+        rw [e, ih]
+        simp only [hmmStepOk, remainders, List.getElem?_cons_succ, List.take_succ_cons, List.all_cons, hlt,
+          Bool.not_false, Bool.true_and]
+
+theorem subtractSearch_none_all : ∀ (p : List α) (prob : α) (i0 : Nat), subtractSearch prob p i0 = none →
+    (remainders prob p).all (fun x => !(Scalar.ltb x (Scalar.ofInt 0))) = true
+  | [], _, _, _ => by simp [remainders]
+  | q :: qs, prob, i0, h => by
+    unfold subtractSearch at h
+    dsimp only at h
+    split at h
+    · cases h
+    · rename_i hlt
+      simp only [remainders, List.all_cons, hlt, Bool.not_false, Bool.true_and]
+      exact subtractSearch_none_all qs _ (i0 + 1) h
+
+theorem hmmState_stepOk (p : List α) (u : α) (i : Nat) (h : hmmState p u none = .ok i) : hmmStepOk p u i = true := by
+  unfold hmmState at h
+  cases hs : subtractSearch u p 0 with
+  | none => rw [hs] at h; cases h
+  | some j =>
+    rw [hs] at h
+    simp only [Except.ok.injEq] at h; subst h
+    have := (subtractSearch_iff_stepOk p u 0 j).mp (by simpa using hs)
+    exact this
+
+theorem hmmState_firstOk (eq : List α) (u : α) (i : Nat) (h : hmmState eq u (some 0) = .ok i) : hmmFirstOk eq u i = true := by
+  unfold hmmState at h
+  unfold hmmFirstOk
+  cases hs : subtractSearch u eq 0 with
+  | none =>
+    rw [hs] at h
+    simp only [Except.ok.injEq] at h; subst h
+    simp [subtractSearch_none_all eq u 0 hs]
+  | some j =>
+    rw [hs] at h
+    simp only [Except.ok.injEq] at h; subst h
+    have := (subtractSearch_iff_stepOk eq u 0 j).mp (by simpa using hs)
+    simp [this]
+
+theorem hmmChain_law (rows : List (List α)) : ∀ (k : Nat) (sta : Nat) (us : List α) (l : List Nat),
+    hmmChain rows sta k us = .ok l → hmmChainOk rows sta (us.take k) l = true
+  | 0, _, us, l, h => by
+    simp only [hmmChain, Except.ok.injEq] at h; subst h; simp [hmmChainOk]
+  | k + 1, _, [], _, h => by simp [hmmChain] at h
+  | k + 1, sta, u :: us, l, h => by
+    unfold hmmChain at h
+    cases hr : rows[sta]? with
+    | none => rw [hr] at h; cases h
+    | some row =>
+      rw [hr] at h; dsimp only at h
+      cases hst : hmmState row u none with
+      | error e => rw [hst] at h; cases h
+      | ok stb =>
+        rw [hst] at h; dsimp only at h
+        cases hc : hmmChain rows stb k us with
+        | error e => rw [hc] at h; cases h
+        | ok l' =>
+          rw [hc] at h
+          simp only [Except.ok.injEq] at h; subst h
+          simp only [List.take_succ_cons, hmmChainOk, hr, Bool.and_eq_true]
+          exact ⟨hmmState_stepOk row u stb hst, hmmChain_law rows k stb us l' hc⟩
+
+theorem hmmSample_law (eq : List α) (rows : List (List α)) (size : Nat) (draws : List α) (l : List Nat)
+    (h : hmmSample eq rows size draws = .ok l) : hmmSampleLawOk eq rows (draws.take size) l = true := by
+  unfold hmmSample at h
+  cases size with
+  | zero => simp only [Except.ok.injEq] at h; subst h; simp [hmmSampleLawOk]
+  | succ k =>
+    cases draws with
+    | nil => simp at h
+    | cons u us =>
+      dsimp only at h
+      cases hst : hmmState eq u (some 0) with
+      | error e => rw [hst] at h; cases h
+      | ok sta =>
+        rw [hst] at h; dsimp only at h
+        cases hc : hmmChain rows sta k us with
+        | error e => rw [hc] at h; cases h
+        | ok l' =>
+          rw [hc] at h
+          simp only [Except.ok.injEq] at h; subst h
+          simp only [List.take_succ_cons, hmmSampleLawOk, Bool.and_eq_true]
+          exact ⟨hmmState_firstOk eq u sta hst, hmmChain_law rows k sta us l' hc⟩
+end
+
 end Bpp.Rand
